@@ -231,6 +231,22 @@ Theorem C15_every_feature_placed : forall its x, In x its -> exists g, In g (gro
 Proof. exact every_feature_placed_l. Qed.
 Print Assumptions C15_every_feature_placed.
 
+(* FULL STATEMENT (the property text): two features share a step exactly when group options, framework and type agree,
+   an undeclared type agreeing with any:
+     forall its a b, In a its -> In b its -> (same_group (group_items its) a b <-> agreeb a b = true).
+   REFUTED on the faithful model (known finding C15-untyped-joins-first-typed-group: with typed features of two
+   different types and an untyped one on the same options, "agrees with any" is not transitive; the code puts the
+   untyped feature with whichever typed group comes first in set order).  PROVED outside that domain. *)
+Theorem C15_share_iff_agree_partial : forall its, kf_ambiguous its = false -> forall a b, In a its -> In b its ->
+  (same_group (group_items its) a b <-> agreeb a b = true).
+Proof. exact share_iff_agree_partial_l. Qed.
+Print Assumptions C15_share_iff_agree_partial.
+
+Theorem C15_share_iff_agree_refuted :
+  kf_ambiguous [amb_t1; amb_t2; amb_u] = true /\ agreeb amb_u amb_t2 = true /  ~ same_group (group_items [amb_t1; amb_t2; amb_u]) amb_u amb_t2 /  same_group (group_items [amb_t2; amb_t1; amb_u]) amb_u amb_t2.
+Proof. exact share_iff_agree_refuted_l. Qed.
+Print Assumptions C15_share_iff_agree_refuted.
+
 (* context options never separate (or join) anything: changing the context of any features leaves the grouping as is *)
 Theorem C15_context_never_splits : forall fs fs', Forall2 same_but_context fs fs' -> group_features fs = group_features fs'.
 Proof. exact context_irrelevant_l. Qed.
